@@ -64,6 +64,8 @@ func main() {
 		cmdFuzz(os.Args[2:])
 	case "rsweep":
 		cmdRsweep(os.Args[2:])
+	case "transp":
+		cmdTransp(os.Args[2:])
 	case "play":
 		cmdPlay(os.Args[2:])
 	case "sweep16":
